@@ -44,6 +44,15 @@ func govcHostileCorpus() []govcHostile {
 		{"unknown-prefixed-type-in-submodule", []string{"module m { namespace \"urn:m\"; prefix m; include s; }", "submodule s { belongs-to m { prefix m; } leaf x { type q:nosuch; } }"}, true},
 		{"include-missing", []string{"module m { namespace \"urn:m\"; prefix m; include nosuch; container c { leaf x { type string; } } }"}, true},
 		{"import-missing", []string{hdr("m") + "import nosuch { prefix n; } leaf x { type n:t; } }"}, true},
+		{"top-level-grouping-with-typedef", []string{"grouping g { typedef a { type b; } }"}, true},
+		{"orphan-submodule-identityref", []string{"submodule s { belongs-to m { prefix m; } leaf l { type identityref { base foo; } } }"}, true},
+		{"orphan-submodule-identities", []string{"submodule s { belongs-to m { prefix m; } identity foo; identity bar { base foo; } identity baz { base m:bar; } }"}, false},
+		{"include-missing-uses", []string{"module m { namespace \"urn:m\"; prefix m; include nosuch; container c { uses g; } }"}, true},
+		{"import-missing-uses", []string{hdr("m") + "import nosuch { prefix n; } container c { uses n:g; } }"}, true},
+		{"import-missing-identity-base", []string{hdr("m") + "import nosuch { prefix n; } identity a { base n:b; } leaf l { type identityref { base n:b; } } }"}, true},
+		{"import-missing-augment", []string{hdr("m") + "import nosuch { prefix n; } augment \"/n:c\" { leaf y { type string; } } }"}, true},
+		{"import-missing-leafref-deviation", []string{hdr("m") + "import nosuch { prefix n; } deviation \"/n:c\" { deviate not-supported; } leaf l { type leafref { path \"/n:c/n:d\"; } } }"}, true},
+		{"orphan-submodule-augment-own-prefix", []string{"submodule s { belongs-to m { prefix m; } augment \"/m:c\" { leaf y { type string; } } container d { uses m:g; } }"}, true},
 		{"top-level-unknown-keyword", []string{"foo bar;"}, true},
 		{"top-level-container", []string{"container c { leaf x { type string; } }"}, true},
 		{"unknown-statement", []string{hdr("m") + "bogus x; }"}, true},
